@@ -18,5 +18,12 @@ func controlsC05() []Control {
 		{Name: "dealt-in flag set by the join operation", Expect: "R1", Mutate: replaceIn("(*tableEngine).PlayerJoin", "te.table.State.PlayerStates[playerIdx].IsIn = true\n", "te.table.State.PlayerStates[playerIdx].IsIn = true\n\tte.table.State.PlayerStates[playerIdx].IsParticipated = true\n", 0)},
 		{Name: "open step reports success with the old table when cloning fails to fail", Expect: "R1", Mutate: replaceIn("(*tableEngine).openGame", "cloneTable, err := oldTable.Clone()\n\tif err != nil {", "cloneTable, err := oldTable.Clone()\n\tif err == nil {", 0)},
 		{Name: "positions re-initialised on every hand", Expect: "R1", Mutate: replaceIn("(*tableEngine).openGame", "if !te.sm.IsInitPositions() {", "if te.sm.IsInitPositions() {", 0)},
+		{Name: "wrap test also taken when dealer and big blind coincide", Expect: "R5", Mutate: replaceIn("(*seatManager).isBetweenDealerBB", "if bbSeatID-dealerSeatID < 0 {", "if bbSeatID-dealerSeatID <= 0 {", 0)},
+		{Name: "wrap loop answers true on a miss", Expect: "R5", Mutate: replaceIn("(*seatManager).isBetweenDealerBB", "if i%sm.MaxSeat == targetSeatID {", "if i%sm.MaxSeat != targetSeatID {", 0)},
+		{Name: "non-wrapping answer is a disjunction", Expect: "R5", Mutate: replaceIn("(*seatManager).isBetweenDealerBB", "targetSeatID < bbSeatID && targetSeatID > dealerSeatID", "targetSeatID < bbSeatID || targetSeatID > dealerSeatID", 0)},
+		{Name: "waiting predicate asks the arc from big blind to dealer", Expect: "R5", Mutate: replaceIn("(*seatManager).IsPlayerBetweenDealerBB", "sm.isBetweenDealerBB(sm.CurrentDealerSeatID(), sm.CurrentBBSeatID(), seatID)", "sm.isBetweenDealerBB(sm.CurrentBBSeatID(), sm.CurrentDealerSeatID(), seatID)", 0)},
+		{Name: "has-chips refresh writes the seated-in flag", Expect: "R9", Mutate: replaceIn("(*seatManager).UpdatePlayerHasChips", "sm.SeatData[seatID].HasChips = hasChips", "sm.SeatData[seatID].IsIn = hasChips", 0)},
+		{Name: "eligibility query answers true for an unknown id", Expect: "R9", Mutate: replaceIn("(*seatManager).IsPlayerActive", "return false, err", "return true, err", 0)},
+		{Name: "positions never marked initialised", Expect: "R9", Mutate: replaceIn("(*seatManager).InitPositions", "\tsm.IsInit = true\n", "", 0)},
 	}
 }
